@@ -793,6 +793,7 @@ func (tree *MutableTree) SaveVersion() ([]byte, int64, error) {
 		return nil, version, err
 	}
 
+	verifPoint("save:after-commit")
 	tree.ndb.resetLatestVersion(version)
 	tree.version = version
 
